@@ -585,31 +585,45 @@ Definition rename (s : fsys) (v : view) (oldpath newpath : str) : fsys * res :=
     else match sr_parent ro, sr_child ro, sr_parent rn with
          | Some op, Some oc, Some np =>
              let h := f_heap s in
+             let same := str_eqb (pi_path (sr_pi ro)) (pi_path (sr_pi rn))
+                         || match sr_child rn with Some nc => Nat.eqb nc oc | None => false end in
+             let ndir := match sr_child rn with Some nc => node_is_dir h nc | None => false end in
+             (* decided before any permission check: a directory onto a directory (as os.Rename), a file or a
+                symbolic link onto itself or onto another hard link of itself (as rename(2)) *)
+             let early : option res :=
+               match get h oc with
+               | Some (NDir _ _) =>
+                   if ndir && negb (is_not_exist (sr_err rn)) then
+                     Some (if match sr_child rn with Some nc => Nat.eqb nc oc | None => false end
+                              && negb (str_eqb oldpath newpath)
+                           then ROk
+                           else RFail (if win v then EW_AccessDenied else sr_err rn))
+                   else None
+               | Some _ => if same then Some ROk else None
+               | None => None
+               end in
+             match early with
+             | Some r => (s, r)
+             | None =>
              if negb (perm_on h op OpenWrite (v_user v)) then (s, RFail EPermDenied)
              else if negb (Nat.eqb oc op) && sticky_refuses h op oc (v_user v) then (s, RFail EOpNotPermitted)
              else if negb (Nat.eqb np op) && negb (perm_on h np OpenWrite (v_user v)) then (s, RFail EPermDenied)
              else
-               let same := str_eqb (pi_path (sr_pi ro)) (pi_path (sr_pi rn))
-                           || match sr_child rn with Some nc => Nat.eqb nc oc | None => false end in
                let move (h0 : heap) :=
                  (with_heap s (remove_child (add_child h0 np (pi_part (sr_pi rn)) oc) op (pi_part (sr_pi ro))), ROk) in
                match get h oc with
-               | Some (NDir _ _) =>
-                   let ndir := match sr_child rn with Some nc => node_is_dir h nc | None => false end in
-                   if ndir && negb (is_not_exist (sr_err rn)) then
-                     if match sr_child rn with Some nc => Nat.eqb nc oc | None => false end
-                        && negb (str_eqb oldpath newpath)
-                     then (s, ROk)
-                     else (s, RFail (if win v then EW_AccessDenied else sr_err rn))
-                   else if Nat.eqb oc op
-                           || is_prefix (pi_path (sr_pi ro) ++ [sepc (v_os v)]) (pi_path (sr_pi rn))
+               | Some (NDir _ mo) =>
+                   if Nat.eqb oc op
+                      || is_prefix (pi_path (sr_pi ro) ++ [sepc (v_os v)]) (pi_path (sr_pi rn))
                    then (s, RFail EInvalidArgument)
                    else if negb (is_not_exist (sr_err rn))
                    then (s, RFail (if win v then EW_AccessDenied else ENotADirectory))
+                   (* a directory moved to another directory: write permission on the directory itself *)
+                   else if negb (Nat.eqb np op) && negb (us_admin (v_user v))
+                           && negb (check_permission mo OpenWrite (v_user v))
+                   then (s, RFail EPermDenied)
                    else move h
                | Some _ =>            (* file or symbolic link *)
-                   if same then (s, ROk)
-                   else
                    match sr_child rn with
                    | None => move h
                    | Some nc =>
@@ -622,6 +636,7 @@ Definition rename (s : fsys) (v : view) (oldpath newpath : str) : fsys * res :=
                    end
                | None => move h
                end
+             end
          | Some _, Some _, None =>      (* newpath is a volume that does not exist *)
              (s, if is_not_exist (sr_err rn) then RFail (sr_err rn) else RPanic)
          | _, _, _ => (s, RPanic)
